@@ -25,3 +25,12 @@ func init() {
 		r.add("DBG", "debug", "x", "x", nil, nil, "")
 	})
 }
+
+func init() {
+	register("DBGG", "debug globals", func(c *Ctx, r *Report) {
+		for _, g := range c.W.globalWrites() {
+			fmt.Println(g.Global, "|", g.Fn, "|", g.Pos, "|", g.Kind)
+		}
+		r.add("DBGG", "debug", "x", "x", nil, nil, "")
+	})
+}
